@@ -3,7 +3,7 @@ import json, os, subprocess, sys, time, hashlib
 
 VERIF = os.path.dirname(os.path.dirname(os.path.abspath(__file__)))
 REPO = os.environ.get('VERIF_REPO', '/repo')
-BUILD = os.path.join(VERIF, '.build')
+BUILD = os.environ.get('VERIF_BUILD') or os.path.join(VERIF, '.build')
 GEN = os.path.join(BUILD, 'gen')
 EVIDENCE = os.path.join(VERIF, 'evidence')
 REPLAYS = os.path.join(VERIF, 'replays')
